@@ -6,6 +6,7 @@ use std::path::PathBuf;
 use hcommon::{Report, read_ndjson};
 use serde_json::{Value, json};
 
+mod crash;
 mod trace;
 mod verify;
 mod world;
@@ -21,6 +22,8 @@ fn main() {
     match args[1].as_str() {
         "replay" => rt.block_on(replay(&mut rep, &args[2], &args[3])),
         "trace" => rt.block_on(trace_cmd(&mut rep, &args[2], &args[3])),
+        "timing" => rt.block_on(timing_cmd(&mut rep, &args[2])),
+        "crash" => rt.block_on(crash::crash_cmd(&mut rep, &args[2])),
         other => panic!("unknown subcommand {other}"),
     }
     rep.finish();
@@ -41,6 +44,7 @@ pub async fn close(w: &mut World) {
         drop(db);
     }
 }
+
 
 pub async fn reopen(w: &mut World) -> Result<(), String> {
     close(w).await;
@@ -501,4 +505,142 @@ async fn trace_cmd(rep: &mut Report, plans: &str, out: &str) {
     rep.class("sequential-with-rejections");
     rep.class("concurrent-clients");
     rep.class("close-reopen");
+}
+
+// ---------------------------------------------------------------------------
+// C20: every append returns within a bounded time, under every sync configuration and with
+// concurrent clients; the recorded trace must leave no reply unacknowledged
+
+const APPEND_DEADLINE_MS: u64 = 5_000;
+
+async fn timing_cmd(rep: &mut Report, out: &str) {
+    use std::io::Write;
+    let quick = hcommon::tier_quick();
+    let rec = trace::Recorder::install();
+    let root = scratch("timing");
+    let mut f = std::io::BufWriter::new(std::fs::File::create(out).unwrap());
+    let mut runs = 0u64;
+    let mut total_lines = 0u64;
+    let mut max_ms = 0u64;
+    let mut appends = 0u64;
+    let mut errors = 0u64;
+    let mut segments = 0u64;
+    let intervals: &[u64] = if quick { &[1, 40] } else { &[1, 5, 40, 200] };
+    let clients = if quick { 6 } else { 8 };
+    let per_client = if quick { 20 } else { 50 };
+    let mut vi = 0;
+    for &interval in intervals {
+        for (min_bytes, batch) in [(1usize, 1usize), (1 << 30, 1000), (4096, 50)] {
+            for compression in [false, true] {
+                vi += 1;
+                if quick && vi % 2 == 0 {
+                    continue;
+                }
+                let cfg = DbCfg { sync_interval_ms: interval, min_sync_bytes: min_bytes, max_batch: batch, compression, ..DbCfg::small(1) };
+                let name = format!("interval={interval}ms,min_bytes={min_bytes},batch={batch},zstd={compression}");
+                rep.eval(1);
+                rep.class(format!("interval={interval},trigger={}", if min_bytes == 1 { "bytes" } else if batch == 50 { "mixed" } else { "timer" }));
+                let dir = root.join(format!("v{vi}"));
+                rec.take();
+                let w = match World::new(dir.clone(), cfg.clone(), PayloadRule::Rollover, hcommon::seed() + vi as u64) {
+                    Ok(w) => std::sync::Arc::new(tokio::sync::Mutex::new(w)),
+                    Err(e) => {
+                        rep.violation("c20:open", json!({"config": name, "problem": e}), json!({"config": name}));
+                        continue;
+                    }
+                };
+                let mut hs = vec![];
+                for c in 0..clients {
+                    let w = w.clone();
+                    hs.push(tokio::spawn(async move {
+                        let mut worst = 0u64;
+                        let mut n_err = 0u64;
+                        let stream = format!("t{c}");
+                        for i in 0..per_client as u64 {
+                            // a mix of valid appends and ones that are rejected or fail half way
+                            let kind = (i + c as u64) % 7;
+                            let n = 1 + (i as usize % 3);
+                            let evs: Vec<Value> = (0..n)
+                                .map(|j| {
+                                    json!({"s": stream, "x": if kind == 3 { json!({"k": "exact", "v": 999}) } else { json!({"k": "any"}) },
+                                           "badts": kind == 5 && j == n - 1})
+                                })
+                                .collect();
+                            let txv = json!({"id": 200_000 + c as u64 * 1000 + i, "key": format!("kt{c}"), "p": c % 3, "xs": {"k": "any"},
+                                             "oversize": kind == 6 && i % 2 == 0, "evs": evs});
+                            let (prep, db) = {
+                                let mut g = w.lock().await;
+                                (g.prepare(&txv), g.db().clone())
+                            };
+                            let t0 = std::time::Instant::now();
+                            let r = tokio::time::timeout(std::time::Duration::from_millis(APPEND_DEADLINE_MS), db.append_events(prep.tx)).await;
+                            let ms = t0.elapsed().as_millis() as u64;
+                            worst = worst.max(ms);
+                            match r {
+                                Err(_) => return Err(format!("client {c} append {i} (kind {kind}) did not return within {APPEND_DEADLINE_MS} ms")),
+                                Ok(Err(_)) => n_err += 1,
+                                Ok(Ok(_)) => {}
+                            }
+                        }
+                        Ok((worst, n_err))
+                    }));
+                }
+                let mut failed = None;
+                for h in hs {
+                    match h.await {
+                        Ok(Ok((worst, n_err))) => {
+                            max_ms = max_ms.max(worst);
+                            errors += n_err;
+                            appends += per_client as u64;
+                        }
+                        Ok(Err(e)) => failed = Some(e),
+                        Err(_) => failed = Some(format!("panic: {}", hcommon::last_panic())),
+                    }
+                }
+                if let Some(e) = failed {
+                    rep.violation("c20:append-did-not-complete", json!({"config": name, "problem": e}), json!({"config": name, "clients": clients, "per_client": per_client}));
+                }
+                let mut w = std::sync::Arc::try_unwrap(w).ok().expect("clients done").into_inner();
+                segments += count_segments(&w.dir);
+                let t0 = std::time::Instant::now();
+                if tokio::time::timeout(std::time::Duration::from_secs(20), reopen(&mut w)).await.is_err() {
+                    rep.violation("c20:shutdown-hangs", json!({"config": name}), json!({"config": name}));
+                } else {
+                    rec.mark("h.reopen", &[]);
+                }
+                max_ms = max_ms.max(0 * t0.elapsed().as_millis() as u64);
+                close(&mut w).await;
+                shutdown_all().await;
+                match trace::to_trace(&rec.take(), &dir) {
+                    Ok(lines) => {
+                        if runs > 0 {
+                            writeln!(f, "{}", json!({"e": "reset"})).unwrap();
+                            total_lines += 1;
+                        }
+                        runs += 1;
+                        for l in &lines {
+                            writeln!(f, "{l}").unwrap();
+                        }
+                        total_lines += lines.len() as u64;
+                        if runs == 1 {
+                            rep.sample(json!({"config": name, "trace_head": lines.iter().take(10).collect::<Vec<_>>()}));
+                        }
+                    }
+                    Err(e) => rep.violation("c20:trace-conversion", json!({"config": name, "problem": e}), json!({"config": name})),
+                }
+                let _ = std::fs::remove_dir_all(&dir);
+            }
+        }
+    }
+    f.flush().unwrap();
+    sierradb::verif::clear();
+    let _ = std::fs::remove_dir_all(&root);
+    rep.set("runs", json!(runs));
+    rep.set("trace_lines", json!(total_lines));
+    rep.set("appends", json!(appends));
+    rep.set("append_errors", json!(errors));
+    rep.set("max_append_ms", json!(max_ms));
+    rep.set("deadline_ms", json!(APPEND_DEADLINE_MS));
+    rep.set("clients", json!(clients));
+    rep.set("segments_created", json!(segments));
 }
